@@ -13,8 +13,23 @@ use std::task::{Context, Poll, Waker};
 use tokio::io::{AsyncRead, AsyncWrite, ReadBuf};
 
 /// What `PhysLayer::Verif` boxes.
-pub trait VerifStream: AsyncRead + AsyncWrite + Unpin + Send {}
-impl<T: AsyncRead + AsyncWrite + Unpin + Send> VerifStream for T {}
+pub trait VerifStream: AsyncRead + AsyncWrite + Unpin + Send {
+    /// physical-layer source of the bytes returned by the most recent read
+    /// (PhysAddr::None for stream transports, a socket address to emulate UDP)
+    fn last_read_addr(&self) -> crate::util::phys::PhysAddr {
+        crate::util::phys::PhysAddr::None
+    }
+}
+
+impl VerifStream for PipeEnd {
+    fn last_read_addr(&self) -> crate::util::phys::PhysAddr {
+        let g = self.0.lock().unwrap_or_else(|e| e.into_inner());
+        match g.last_addr {
+            0 => crate::util::phys::PhysAddr::None,
+            port => crate::util::phys::PhysAddr::Udp(std::net::SocketAddr::from(([127, 0, 0, 1], port))),
+        }
+    }
+}
 
 /// global activity counter (pipe reads/writes, mock callbacks, probes)
 static ACTIVITY: AtomicU64 = AtomicU64::new(0);
@@ -29,6 +44,8 @@ pub fn activity() -> u64 {
 #[derive(Clone, Debug)]
 pub enum Chunk {
     Data(Vec<u8>),
+    /// data tagged with an emulated UDP source port
+    DataFrom(Vec<u8>, u16),
     Eof,
     Err(std::io::ErrorKind),
 }
@@ -54,6 +71,7 @@ pub struct PipeState {
     pub write_bytes: u64,
     read_blocked: bool,
     dropped: bool,
+    last_addr: u16,
 }
 
 #[derive(Clone)]
@@ -87,6 +105,7 @@ pub fn pipe(epoch: Option<tokio::time::Instant>) -> (Pipe, PipeEnd) {
         write_bytes: 0,
         read_blocked: false,
         dropped: false,
+        last_addr: 0,
     }));
     (Pipe(s.clone()), PipeEnd(s))
 }
@@ -113,6 +132,13 @@ impl Pipe {
     /// queue bytes as one chunk
     pub fn push(&self, bytes: &[u8]) {
         self.push_chunk(Chunk::Data(bytes.to_vec()));
+    }
+
+    /// queue one datagram from an emulated UDP source port (port != 0)
+    pub fn push_from(&self, bytes: &[u8], port: u16) {
+        if !bytes.is_empty() {
+            self.push_chunk(Chunk::DataFrom(bytes.to_vec(), port));
+        }
     }
 
     /// queue bytes split at the given chunk sizes (the rest in one chunk)
@@ -168,6 +194,7 @@ impl Pipe {
             .iter()
             .map(|c| match c {
                 Chunk::Data(d) => d.len(),
+                Chunk::DataFrom(d, _) => d.len(),
                 _ => 0,
             })
             .sum()
@@ -221,7 +248,18 @@ impl AsyncRead for PipeEnd {
                 g.rx_waker = Some(cx.waker().clone());
                 Poll::Pending
             }
+            Some(Chunk::DataFrom(d, port)) => {
+                // datagram semantics: truncated to the buffer, remainder lost
+                let n = d.len().min(buf.remaining());
+                buf.put_slice(&d[..n]);
+                g.last_addr = port;
+                g.reads += 1;
+                g.read_bytes += n as u64;
+                bump();
+                Poll::Ready(Ok(()))
+            }
             Some(Chunk::Data(mut d)) => {
+                g.last_addr = 0;
                 let n = d.len().min(buf.remaining());
                 if n == 0 {
                     // zero-length destination: report "0 bytes read" as a real socket would
